@@ -34,8 +34,32 @@ def find_scan(ctx, R):
     return sector, cands[0]
 
 
+def _by_provenance(ctx, key):
+    """Fallback for the position-based resolvers: the kernel roles by provenance of the result / metadata fields."""
+    from .kernels import SampleWorld
+    w = object.__new__(SampleWorld)
+    w.ctx, w.R, w.f = ctx, ctx.roles, ctx.facts
+    try:
+        return w.kernel_roles().get(key)
+    except RoleLost:
+        return None
+    except Exception:
+        return None
+
+
 def find_sector(ctx, R):
-    """Role `sector`: the callee of sample taking &mut reader that is called before the quantile."""
+    """Role `sector`: the callee of sample taking &mut reader that is called before the quantile (position); when the quantile is not
+    called from sample itself (wrapped in a helper), the producer of the Feynman parameters handed to the L-matrix kernel (provenance)."""
+    try:
+        return _find_sector_by_position(ctx, R)
+    except RoleLost:
+        b = _by_provenance(ctx, "sector")
+        if b is None:
+            raise
+        return b
+
+
+def _find_sector_by_position(ctx, R):
     s = R.sample()
     rd = R.reader_adt()
     q = R.quantile()
